@@ -24,6 +24,7 @@ fn main() {
         "types" => shpverif::cmd_types::run(&a),
         "rings" => shpverif::cmd_rings::run(&a),
         "complete" => shpverif::cmd_complete::run(&a),
+        "geo" => shpverif::cmd_geo::run(&a),
         "arbitrary" => shpverif::cmd_arbitrary::run(&a),
         "arbitrary-child" => shpverif::cmd_arbitrary::child(&a),
         c => {
